@@ -296,6 +296,109 @@ theorem C07_base_and_extension_in_one_file_counterexample :
   constructor <;> decide +kernel
 
 
+/-! ### adding the same resource again changes nothing -/
+
+theorem skip_after_add (cur c : Db) (lrow : RLexicon) (hL : c.lexicons = cur.lexicons ++ [lrow]) (a : Lexicon)
+    (hid : lrow.id = a.id) (hver : lrow.version = a.version) : skip c a = true := by
+  unfold skip
+  have : (lexiconRow c a.id a.version).isSome = true := by
+    unfold lexiconRow
+    rw [hL, List.find?_append]
+    cases hf : cur.lexicons.find? (fun r => r.id == a.id && r.version == a.version) with
+    | some x => simp
+    | none => simp [hid, hver]
+  simp [this]
+
+def stepNow (norm : String → String) (rank : Nat) (cur : Db) (l : Lexicon) : R Db :=
+  if skip cur l then pure cur else addLexicon norm rank cur l
+
+theorem fold_keeps_skip (norm : String → String) (rank : Nat) (l0 : Lexicon) :
+    ∀ (t : List Lexicon) (cur db' : Db), t.foldlM (stepNow norm rank) cur = .ok db' →
+      (∀ x ∈ t, ¬ (x.id = l0.id ∧ x.version = l0.version)) →
+      (∀ x ∈ t, ∀ b, l0.ext = some b → ¬ (x.id = b.id ∧ x.version = b.version)) →
+      skip db' l0 = skip cur l0 := by
+  intro t
+  induction t with
+  | nil => intro cur db' h _ _; simp only [List.foldlM_nil, pure, Except.pure, Except.ok.injEq] at h; rw [h]
+  | cons a t ih =>
+    intro cur db' h h1 h2
+    simp only [List.foldlM_cons, bind, Except.bind] at h
+    cases hs : stepNow norm rank cur a with
+    | error e => rw [hs] at h; simp at h
+    | ok c =>
+      rw [hs] at h
+      have hrest := ih c db' h (fun x hx => h1 x (List.mem_cons_of_mem _ hx)) (fun x hx => h2 x (List.mem_cons_of_mem _ hx))
+      rw [hrest]
+      unfold stepNow at hs
+      cases hsk : skip cur a with
+      | true => simp only [hsk, if_true, pure, Except.pure, Except.ok.injEq] at hs; rw [hs]
+      | false =>
+        simp only [hsk, Bool.false_eq_true, if_false] at hs
+        obtain ⟨lrow, hL, hid, hver⟩ := addLexicon_lexrow norm rank cur c a hs
+        apply skip_frame cur c lrow hL l0
+        · rw [hid, hver]; exact h1 a List.mem_cons_self
+        · intro b hb; rw [hid, hver]; exact h2 a List.mem_cons_self b hb
+
+theorem fold_all_skipped_after (norm : String → String) (rank : Nat) :
+    ∀ (xs : List Lexicon) (cur db' : Db), xs.foldlM (stepNow norm rank) cur = .ok db' →
+      xs.Pairwise (fun a b => ¬ (a.id = b.id ∧ a.version = b.version)) →
+      (∀ l ∈ xs, ∀ b, l.ext = some b → ∀ l' ∈ xs, ¬ (l'.id = b.id ∧ l'.version = b.version)) →
+      ∀ l ∈ xs, skip db' l = true := by
+  intro xs
+  induction xs with
+  | nil => intro _ _ _ _ _ l hl; simp at hl
+  | cons a t ih =>
+    intro cur db' h hp hb l hl
+    obtain ⟨hpa, hpt⟩ := List.pairwise_cons.mp hp
+    have hbt : ∀ l ∈ t, ∀ b, l.ext = some b → ∀ l' ∈ t, ¬ (l'.id = b.id ∧ l'.version = b.version) :=
+      fun l hl b hlb l' hl' => hb l (List.mem_cons_of_mem _ hl) b hlb l' (List.mem_cons_of_mem _ hl')
+    simp only [List.foldlM_cons, bind, Except.bind] at h
+    cases hs : stepNow norm rank cur a with
+    | error e => rw [hs] at h; simp at h
+    | ok c =>
+      rw [hs] at h
+      rcases List.mem_cons.mp hl with rfl | hlt
+      · -- the head: skipped or just installed at its turn, and nothing later touches that
+        have hc : skip c l = true := by
+          unfold stepNow at hs
+          cases hsk : skip cur l with
+          | true => simp only [hsk, if_true, pure, Except.pure, Except.ok.injEq] at hs; rw [← hs]; exact hsk
+          | false =>
+            simp only [hsk, Bool.false_eq_true, if_false] at hs
+            obtain ⟨lrow, hL, hid, hver⟩ := addLexicon_lexrow norm rank cur c l hs
+            exact skip_after_add cur c lrow hL l hid hver
+        rw [fold_keeps_skip norm rank l t c db' h
+          (fun x hx hxe => hpa x hx ⟨hxe.1.symm, hxe.2.symm⟩)
+          (fun x hx b hlb => hb l List.mem_cons_self b hlb x (List.mem_cons_of_mem _ hx))]
+        exact hc
+      · exact ih c db' h hpt hbt l hlt
+
+/-- **C07, repetition of the add**: a resource of mutually independent lexicons that was added successfully can be
+added again — whatever the database held before, the second add skips every one of its lexicons and returns the
+database unchanged -/
+theorem C07_add_again_changes_nothing (norm : String → String) (rank : Nat) (db db' : Db) (v : String) (ls : List Lexicon)
+    (hd : (ls.map (·.spec)).Nodup)
+    (hind : ∀ l ∈ ls, ∀ b, l.ext = some b → ∀ l' ∈ ls, ¬ (l'.id = b.id ∧ l'.version = b.version))
+    (h : addResource norm rank db ⟨v, ls⟩ = .ok db') :
+    addResource norm rank db' ⟨v, ls⟩ = .ok db' := by
+  have hp : ls.Pairwise (fun a b => ¬ (a.id = b.id ∧ a.version = b.version)) := by
+    have := List.pairwise_map.mp hd
+    exact this.imp (fun hne hh => hne (spec_eq_of_pair _ _ hh))
+  rw [addResource_eq_fold, fold_skip_now norm rank (skOf db ls) ls db hp hind (fun l hl => (skOf_eq db ls hd l hl).symm)] at h
+  have hall := fold_all_skipped_after norm rank ls db db' h hp hind
+  rw [addResource_eq_fold]
+  have : ∀ (xs : List Lexicon), (∀ l ∈ xs, skOf db' ls l = true) →
+      xs.foldlM (fun cur l => if skOf db' ls l then pure cur else addLexicon norm rank cur l) db' = .ok db' := by
+    intro xs
+    induction xs with
+    | nil => intro _; rfl
+    | cons a t ih =>
+      intro hx
+      simp only [List.foldlM_cons, hx a List.mem_cons_self, if_true, pure_bind]
+      exact ih (fun l hl => hx l (List.mem_cons_of_mem _ hl))
+  exact this ls (fun l hl => by rw [skOf_eq db' ls hd l hl]; exact hall l hl)
+
+
 end OneFileOrMany
 
 end WnVerif.Props.C07
